@@ -347,9 +347,9 @@ func drawFlipPlan(rt *rapid.T, follow bool) *flipPlan {
 	}
 	p.Churn = rapid.SliceOfN(rapid.IntRange(0, 40), 8, 8).Draw(rt, "churn")
 	if follow {
-		p.Flips = ev.Pick(4, 10)
+		p.Flips = ev.Pick(4, 6)
 	} else {
-		p.Flips = ev.Pick(25, 150)
+		p.Flips = ev.Pick(25, 60)
 	}
 	return p
 }
@@ -357,8 +357,8 @@ func drawFlipPlan(rt *rapid.T, follow bool) *flipPlan {
 func TestC15_RoleFlip(t *testing.T) {
 	c := ev.New("C15", "roleflip", "exploration")
 	t.Cleanup(c.Flush)
-	c.Rule("12 (thorough 16) concurrent writer connections of drawn kinds (direct SET, EVAL, EVALNA, EVALNA in JSON mode, EVALNASHA, 4-deep pipelined SET / EVALNA, TIMEOUT-wrapped SET / EVALNA; at least a third EVALNA) write unique ids while an admin connection flips READONLY yes/no 25 (150) times per case (2 cases quick, 3 thorough; every flip costs two fsyncs of the config file since fix 6929699, ~0.2 s), and FOLLOW <leader>/FOLLOW no one 4 (10) times per case on a second server. Each flip: wait until every writer had a write accepted in the writable phase plus a drawn amount of churn; send READONLY yes + SERVER in one segment (A); after the acknowledgement is read the epoch becomes odd; wait until every writer was refused a command it sent in the odd epoch; SERVER again (B). Oracle: aof_size and num_objects of A and B are equal (READONLY only), and no command sent in an odd epoch is accepted. No wall-clock thresholds: waits that run out are inconclusive. Non-trivial: every flip (writers are mid-command by construction); distinct by (command, writes accepted in the phase, aof_size).")
-	ev.Rapid("roleflip", ev.Pick(2, 3))
+	c.Rule("12 (thorough 16) concurrent writer connections of drawn kinds (direct SET, EVAL, EVALNA, EVALNA in JSON mode, EVALNASHA, 4-deep pipelined SET / EVALNA, TIMEOUT-wrapped SET / EVALNA; at least a third EVALNA) write unique ids while an admin connection flips READONLY yes/no 25 (60) times per case (2 cases; every flip costs two fsyncs of the config file since fix 6929699, ~0.2 s), and FOLLOW <leader>/FOLLOW no one 4 (6) times per case on a second server. Each flip: wait until every writer had a write accepted in the writable phase plus a drawn amount of churn; send READONLY yes + SERVER in one segment (A); after the acknowledgement is read the epoch becomes odd; wait until every writer was refused a command it sent in the odd epoch; SERVER again (B). Oracle: aof_size and num_objects of A and B are equal (READONLY only), and no command sent in an odd epoch is accepted. No wall-clock thresholds: waits that run out are inconclusive. Non-trivial: every flip (writers are mid-command by construction); distinct by (command, writes accepted in the phase, aof_size).")
+	ev.Rapid("roleflip", ev.Pick(2, 2))
 	rapid.Check(t, func(rt *rapid.T) {
 		for _, follow := range []bool{false, true} {
 			plan := drawFlipPlan(rt, follow)
